@@ -463,8 +463,8 @@ func checkC15(r *mon.Run) {
 			continue
 		}
 		r.Count("faults_surfaced_as_error", 1)
-		if i%97 == 0 {
-			r.Sample(map[string]any{"op": p.op, "k": p.k, "of": seqs[p.op].N, "mode": p.mode, "persistence": tr, "failed_call": o.HitOp, "returned_error": trunc(o.Err, 90)})
+		if i%97 == 0 || i < 2 {
+			r.SampleIfFew(6, map[string]any{"op": p.op, "k": p.k, "of": seqs[p.op].N, "mode": p.mode, "persistence": tr, "failed_call": o.HitOp, "returned_error": trunc(o.Err, 90)})
 		}
 	}
 	r.Floor("faults_reached", int64(len(plans)*9/10))
